@@ -75,7 +75,7 @@ def try_export(F, db, wkey, tmpdir=None):
 PROFILES = ["plain", "rich", "dup", "unprop", "dup+unprop", "bigmux", "all"]
 
 
-N_CORPUS = 4
+N_CORPUS = 5
 
 
 def corpus_case(k, C):
@@ -109,6 +109,18 @@ def corpus_case(k, C):
             fr.update_receiver()
             db.add_frame(fr)
         what = "wit_dup_signals"
+    elif k == 5:    # simple multiplexer that is NOT the first signal of its frame (a writer 'declaring the multiplexer first' in place)
+        fr = C.Frame("MuxFrame", arbitration_id=C.ArbitrationId(0x123, False), size=8)
+        fr.add_signal(C.Signal("Static", start_bit=8, size=8, is_signed=False))
+        fr.add_signal(C.Signal("Mode", start_bit=0, size=4, is_signed=False, multiplex="Multiplexor"))
+        fr.add_signal(C.Signal("ValA", start_bit=16, size=8, is_signed=False, multiplex=0))
+        fr.add_signal(C.Signal("ValB", start_bit=16, size=8, is_signed=False, multiplex=1))
+        for s in fr.signals:
+            s.min, s.max = decimal.Decimal(0), decimal.Decimal(2 ** s.size - 1)
+        fr.add_transmitter("EA")
+        fr.multiplex_signals()
+        db.add_frame(fr)
+        what = "mux_not_first"
     else:           # 13 multiplexer groups
         fr = C.Frame("FMux13", arbitration_id=C.ArbitrationId(0x20, False), size=8)
         fr.add_signal(C.Signal("Sel", start_bit=0, size=8, is_little_endian=True, is_signed=False, multiplex="Multiplexor"))
@@ -122,6 +134,44 @@ def corpus_case(k, C):
         db.add_frame(fr)
         what = "sym_13_groups"
     return db, dict(profile="corpus", idx=-k, corpus=what, features={})
+
+
+def _shuffled_dict(d, rng):
+    items = list(d.items())
+    rng.shuffle(items)
+    return dict(items)
+
+
+def shuffle_orders(db, rng):
+    """permute every ordered container of the matrix in place (content unchanged): frames, ecus, signals of a frame (the
+    multiplexer lands anywhere), free signals, transmitters, receivers, attribute / define / value-table insertion order,
+    signal groups and their members.  Returns what was done (for the evidence)."""
+    done = dict(mux_not_first=0)
+    rng.shuffle(db.frames)
+    rng.shuffle(db.ecus)
+    rng.shuffle(db.signals)
+    db.attributes = _shuffled_dict(db.attributes, rng)
+    for cat in ("global_defines", "ecu_defines", "frame_defines", "signal_defines", "env_defines"):
+        setattr(db, cat, _shuffled_dict(getattr(db, cat), rng))
+    db.value_tables = _shuffled_dict({k: _shuffled_dict(v, rng) for k, v in db.value_tables.items()}, rng)
+    for e in db.ecus:
+        e.attributes = _shuffled_dict(e.attributes, rng)
+    for f in db.frames:
+        rng.shuffle(f.signals)
+        rng.shuffle(f.transmitters)
+        rng.shuffle(f.receivers)
+        rng.shuffle(f.signalGroups)
+        for g in f.signalGroups:
+            rng.shuffle(g.signals)
+        f.attributes = _shuffled_dict(f.attributes, rng)
+        f.mux_names = _shuffled_dict(f.mux_names, rng)
+        for s in f.signals:
+            rng.shuffle(s.receivers)
+            s.attributes = _shuffled_dict(s.attributes, rng)
+            s.values = _shuffled_dict(s.values, rng)
+        if any(s.is_multiplexer for s in f.signals) and not f.signals[0].is_multiplexer:
+            done["mux_not_first"] += 1
+    return done
 
 
 def build_case(base_seed, idx, C):
@@ -173,6 +223,10 @@ def build_case(base_seed, idx, C):
         fr.update_receiver()
         db.add_frame(fr)
         info["bigmux"] = dict(width=w, values=vals)
+    # ---- no list or dict of the matrix is in a 'canonical' order: whatever a writer might normalise in place (multiplexer
+    #      first, frames by id or name, sorted receivers, sorted value tables ...) has something to change ----
+    if idx % 4 != 3:
+        info["shuffled"] = shuffle_orders(db, random.Random(base_seed * 613 + idx))
     # ---- duplicate frame names (the property's quantifier names them explicitly) ----
     if prof in ("dup", "dup+unprop", "all") and len(db.frames) >= 2:
         n = len(db.frames)
